@@ -224,6 +224,13 @@ func GenLedgerPlan(p *PRNG, cfg Config, o LedgerGenOpts) Plan {
 			if kind == "del" && p.Chance(1, 4) {
 				b.Ops = append(b.Ops, Op{K: "und", A: op.A, B: op.B, C: op.C, Amt: "all", N: nextNonce()})
 			}
+			// directed pattern: a key replaced twice and an opt-out within one epoch (C07)
+			if kind == "setkey" && op.A != 0 && op.E == 0 && p.Chance(1, 4) {
+				b.Ops = append(b.Ops, Op{K: "setkey", A: op.A, D: (op.D + 1 + p.Intn(ConsKeyPool-1)) % ConsKeyPool})
+				if p.Chance(1, 2) {
+					b.Ops = append(b.Ops, Op{K: "optout", A: op.A})
+				}
+			}
 			if o.Replays && p.Chance(1, 12) {
 				b.Ops = append(b.Ops, Op{K: "replay", N: int64(p.Intn(1 << 20))})
 			}
